@@ -125,7 +125,7 @@ def cases(tier, seed):
             continue
         yield c
         i += 1
-        if tier != "quick" or ("|" not in c["label"] and any(c["cfg"] == dict(p, compiled=c["cfg"]["compiled"]) or
+        if (tier != "quick" and i % 4 == 0) or ("|" not in c["label"] and any(c["cfg"] == dict(p, compiled=c["cfg"]["compiled"]) or
                                                              {k: c["cfg"][k] for k in ("endian", "align", "compiled")} ==
                                                              {k: p[k] for k in ("endian", "align", "compiled")} for p in families.PAIRWISE)):
             yield dict(c, make="make_fault", mode="short", label=c["label"] + "#short")
